@@ -4,7 +4,10 @@ package main
 
 import (
 	"fmt"
+	"go/constant"
 	"go/token"
+	"go/types"
+	"os"
 	"sort"
 
 	"golang.org/x/tools/go/ssa"
@@ -17,9 +20,12 @@ func init() {
 func runC18(p *Prog, r *Report) {
 	r.Explain = append(r.Explain,
 		"R-PROP: in shaperOpentype.shape propagateFlags is called on every path to the exit and nothing that may write GlyphInfo.Mask (P-FX) runs after it; in Buffer.setGlyphFlags the scratch flag bsfHasGlyphFlags, without which propagateFlags returns early, is set on every path before any mask is written.",
-		"R-UTB/exists: every function of the OpenType layout engine that consults neighbouring glyphs through a context primitive (skippingIterator.next/prev, matchInput, matchBacktrack, matchLookahead) reaches, from each such call, a call that marks the inspected range (unsafeToBreak, unsafeToBreakFromOutbuffer, mergeClusters, mergeOutClusters, or a helper that does) — a lookup type that reads context and never marks it makes every boundary inside the context look safe.")
+		"R-UTB/exists: every function of the OpenType layout engine that consults neighbouring glyphs through a context primitive (skippingIterator.next/prev, matchInput, matchBacktrack, matchLookahead) reaches, from each such call, a call that marks the inspected range (unsafeToBreak, unsafeToBreakFromOutbuffer, mergeClusters, mergeOutClusters, or a helper that does) — a lookup type that reads context and never marks it makes every boundary inside the context look safe.",
+		"R-UTB/must: in those functions, when they return a bool, no path from the context read to a constant `return true` (the lookup applied) within the same loop iteration avoids every marking call.",
+		"R-MINCL: in Buffer.setGlyphFlags the cluster exempted from an interior flag is the result of a findMinCluster chain over exactly the (slice, start, end) ranges that receive the flag — in a buffer whose clusters run backwards the smallest cluster is not the first one.")
 	ruleProp(p, r)
 	ruleUTBExists(p, r)
+	ruleMinCluster(p, r)
 	r.Assumptions = append(r.Assumptions, "AAT paths are excluded by the property", "that the marked range is the right one, and the script shapers' joining/reordering decisions, are NOT decided (upstream deliberately marks only some cases; a rule there would not be exact)")
 	r.NotDecided = append(r.NotDecided, "that every decision depending on a neighbour marks exactly the glyphs it depended on", "fragment-shaping equality itself")
 }
@@ -130,7 +136,7 @@ func ruleUTBExists(p *Prog, r *Report) {
 			}
 		}
 	}
-	n := 0
+	n, nMust := 0, 0
 	var fs []*ssa.Function
 	for _, f := range p.ModFns() {
 		if fnPkg(f) != nil && fnPkg(f).Path() == p.pkgPath("harfbuzz") && !prims[f] {
@@ -162,10 +168,69 @@ func ruleUTBExists(p *Prog, r *Report) {
 					continue
 				}
 				r.Check(hit != nil, rule, key, p.IPos(c), "a marking call (unsafeToBreak*, mergeClusters*, or a helper reaching one) is reachable after this context read")
+				if hit == nil || os.Getenv("VSA_NO_UTBMUST") != "" {
+					continue
+				}
+				// R-UTB/must: no path from the context read to a `return true` (the lookup applied) avoids every marking call
+				res := f.Signature.Results()
+				if res.Len() != 1 || !types.Identical(res.At(0).Type().Underlying(), types.Typ[types.Bool]) {
+					continue
+				}
+				key2 := key
+				r.Instance("R-UTB/must", key2)
+				isMark := func(x ssa.Instruction) bool {
+					if cc, ok := x.(*ssa.Call); ok {
+						if sc := cc.Common().StaticCallee(); sc != nil && marks[sc] {
+							return true
+						}
+					}
+					return false
+				}
+				if why, ok := utbMustReviewed[key2]; ok {
+					r.OK("R-UTB/must", key2, p.IPos(c), "reviewed: "+why)
+					nMust++
+					continue
+				}
+				// a path that takes the back edge of a loop containing the read belongs to another iteration (another
+				// candidate rule / ligature), whose own reads are separate instances
+				var loops []*natLoop
+				for _, l := range naturalLoops(f) {
+					if l.blocks[c.Block()] {
+						loops = append(loops, l)
+					}
+				}
+				cutBack := func(from, to *ssa.BasicBlock) bool {
+					for _, l := range loops {
+						if to == l.header && l.blocks[from] {
+							return true
+						}
+					}
+					return false
+				}
+				ret, path := reachableFrom(p, f, after(c), func(x ssa.Instruction) bool {
+					rt, ok := x.(*ssa.Return)
+					if !ok || len(rt.Results) != 1 {
+						return false
+					}
+					k, isC := rt.Results[0].(*ssa.Const)
+					return isC && k.Value != nil && constant.BoolVal(k.Value)
+				}, isMark, cutBack)
+				nMust++
+				if ret == nil {
+					r.OK("R-UTB/must", key2, p.IPos(c), "every path from this context read to `return true` passes through a marking call")
+				} else {
+					r.Bad("R-UTB/must", key2, p.IPos(ret), fmt.Sprintf("%s reports that the lookup applied (`return true`) on a path from the context read at %s that passes through no marking call (unsafeToBreak*, mergeClusters*): a boundary inside the matched context stays flagged safe", p.FnName(f), p.IPos(c)), path...)
+				}
 			}
 		}
 	}
 	r.Floor(rule, n, 11)
+	r.Floor("R-UTB/must", nMust, 6)
+}
+
+// utbMustReviewed: instances of R-UTB/must decided by reading, one symbol each.
+var utbMustReviewed = map[string]string{
+	"(*harfbuzz.otApplyContext).applyGPOS/next": "the only path from the successful next() to the final `return true` is the fall-through of the inner type switch over PairPosData1/PairPosData2, taken by no value the parser produces; both cases return the verdict of applyGPOSPair1/2, which are instances themselves",
 }
 
 // forwardsOnly: every in-module caller of f reaches a marker after calling f.
@@ -192,4 +257,113 @@ func forwardsOnly(p *Prog, f *ssa.Function, marks, prims map[*ssa.Function]bool)
 		}
 	}
 	return true
+}
+
+// ---- R-MINCL ---------------------------------------------------------------------------------------------------------
+
+// sameExpr: two SSA values that denote the same quantity at the same program point family: the same value, two loads of the
+// same location, two len() of the same expression.
+func sameExpr(a, b ssa.Value) bool {
+	if a == b || sameSource(a, b) {
+		return true
+	}
+	ca, ok1 := a.(*ssa.Call)
+	cb, ok2 := b.(*ssa.Call)
+	if ok1 && ok2 {
+		ba, okA := ca.Common().Value.(*ssa.Builtin)
+		bb, okB := cb.Common().Value.(*ssa.Builtin)
+		if okA && okB && ba.Name() == bb.Name() && len(ca.Common().Args) == 1 && len(cb.Common().Args) == 1 {
+			return sameExpr(ca.Common().Args[0], cb.Common().Args[0])
+		}
+	}
+	if k1, ok := intConst(a); ok {
+		if k2, ok := intConst(b); ok {
+			return k1 == k2
+		}
+	}
+	return false
+}
+
+// ruleMinCluster: in Buffer.setGlyphFlags (interior mode) the cluster that is exempted from the flag is the minimum over
+// exactly the ranges that receive the flag: the cluster argument of every infosSetGlyphFlags call is the result of a chain
+// of findMinCluster calls (each seeded with the previous result, the first with a constant), and the (slice, start, end)
+// triples of the chain are the triples of all the infosSetGlyphFlags calls that consume that value.
+func ruleMinCluster(p *Prog, r *Report) {
+	const rule = "R-MINCL"
+	f := p.Func("harfbuzz", "Buffer", "setGlyphFlags")
+	setF := p.Func("harfbuzz", "Buffer", "infosSetGlyphFlags")
+	minF := p.Func("harfbuzz", "Buffer", "findMinCluster")
+	type triple struct{ s, a, b ssa.Value }
+	users := map[ssa.Value][]triple{}
+	var order []ssa.Value
+	var sites = map[ssa.Value]ssa.Instruction{}
+	for _, blk := range f.Blocks {
+		for _, in := range blk.Instrs {
+			c, ok := in.(*ssa.Call)
+			if !ok || c.Common().StaticCallee() != setF {
+				continue
+			}
+			a := c.Common().Args // recv, infos, start, end, cluster, mask
+			if len(a) != 6 {
+				undecided("R-MINCL: infosSetGlyphFlags no longer has the shape (infos, start, end, cluster, mask)")
+			}
+			if _, seen := users[a[4]]; !seen {
+				order = append(order, a[4])
+				sites[a[4]] = in
+			}
+			users[a[4]] = append(users[a[4]], triple{a[1], a[2], a[3]})
+		}
+	}
+	n := 0
+	for i, cl := range order {
+		n++
+		key := fmt.Sprintf("%s/cluster#%d", p.FnName(f), i)
+		r.Instance(rule, key)
+		var chain []triple
+		v := cl
+		okChain := true
+		why := ""
+		for depth := 0; ; depth++ {
+			if _, isC := v.(*ssa.Const); isC {
+				break
+			}
+			c, ok := v.(*ssa.Call)
+			if !ok || c.Common().StaticCallee() != minF || depth > 8 {
+				okChain = false
+				why = fmt.Sprintf("the exempted cluster is %s, which is not the result of findMinCluster", v.String())
+				break
+			}
+			a := c.Common().Args // recv, infos, start, end, cluster
+			if len(a) != 5 {
+				undecided("R-MINCL: findMinCluster no longer has the shape (infos, start, end, cluster)")
+			}
+			chain = append(chain, triple{a[1], a[2], a[3]})
+			v = a[4]
+		}
+		if okChain {
+			match := func(x, y []triple) bool {
+				for _, t := range x {
+					found := false
+					for _, u := range y {
+						if sameExpr(t.s, u.s) && sameExpr(t.a, u.a) && sameExpr(t.b, u.b) {
+							found = true
+						}
+					}
+					if !found {
+						return false
+					}
+				}
+				return true
+			}
+			if !match(users[cl], chain) {
+				okChain = false
+				why = "a range that receives the flag is not among the ranges over which the minimum cluster is taken"
+			} else if !match(chain, users[cl]) {
+				okChain = false
+				why = "the minimum cluster is taken over a range that does not receive the flag"
+			}
+		}
+		r.Check(okChain, rule, key, p.IPos(sites[cl]), "the cluster exempted from the flag is the minimum (findMinCluster chain) over exactly the ranges that are flagged"+pref(why))
+	}
+	r.Floor(rule, n, 2)
 }
